@@ -239,7 +239,8 @@ class DefaultPredictionStrategy(object):
             root=new_root,
             inv_root=new_covar_cache,
         )
-        add_to_cache(fant_strat, "mean_cache", fant_mean_cache)
+        # (the reader, _mean_cache, is keyed by the NaN policy; the update above is the one of the "ignore" policy)
+        add_to_cache(fant_strat, "mean_cache", fant_mean_cache, "ignore")
         add_to_cache(fant_strat, "covar_cache", new_covar_cache.to_dense())
         return fant_strat
 
